@@ -1,5 +1,6 @@
 import JediModel.Lemmas.DiskCache
 import JediModel.Gen.C09
+import JediModel.Lemmas.NsPath
 /-! # C09 — Changes to project files on disk are always seen
 
 Property theorems over `Model/DiskCache` (file system with writer-chosen mtimes; in-memory parser
@@ -255,4 +256,80 @@ theorem stale_if_module_cache_shared :
         [.write "m" 1 10, .newScript, .importName "m", .write "m" 2 20, .newScript]) "m").1 = some 2 := by
   decide
 
+
 end JediModel.Props.C09
+
+/-! ## portions of a pkgutil-style namespace package created later (`Model/NsPath`)
+
+The long-lived helper keeps importlib's `sys.path_importer_cache`; a directory met while it does not
+exist gets the entry `None`, which is never revalidated.  `ModuleValue.py__path__` therefore has to
+hand over existing directories only (`Gen.C09.nsCfg.filterIsdir`, read from the source). -/
+namespace JediModel.Props.C09.Ns
+open JediModel.NsPath
+
+abbrev real := JediModel.Gen.C09.nsCfg
+
+/-- **ns_candidates_exist.**  Every directory `py__path__` of a namespace-boilerplate package hands to
+the finder exists at that moment (given the package's own directory does): proved from
+`Gen.C09.nsCfg.filterIsdir = true`; dropping the `os.path.isdir` filter makes the translator emit
+`false` and this file stops building. -/
+theorem ns_candidates_exist (fs : Fs) (entries : List (Path × Path)) (own : Path)
+    (hown : fs.isdir own = true) : ∀ d ∈ nsPaths real fs entries own, fs.isdir d = true :=
+  candidates_exist real rfl fs entries own hown
+
+/-- **no_negative_entry_partial.**  Along every history in which the sys.path entries exist whenever a Script
+looks, the helper's finder cache never gets a negative entry. -/
+theorem no_negative_entry_partial (h : List Op) (hok : AllEntriesExist real {} h) :
+    (run real {} h).fd.neg = [] := run_no_negative_entry real rfl h {} rfl hok
+
+/-- **later_portion_found_partial.**  After every history of directory / module creations and removals
+and looks of the long-lived process in which the sys.path ENTRIES exist whenever a Script looks
+(portions `<entry>/<pkg>` may be missing and appear later - that is the point), the finder cache holds
+no negative entry, and every later look answers exactly as a brand-new process on the same files: a
+module in a portion created after earlier looks is found, a removed one is not. -/
+theorem later_portion_found_partial (h : List Op) (hok : AllEntriesExist real {} h) (q : Query)
+    (hq : EntriesExist (run real {} h).fs q) :
+    answer real (run real {} h) q = fresh real (run real {} h) q
+    ∧ (run real {} h).fd.neg = [] := by
+  have hn := run_no_negative_entry real rfl h {} rfl hok
+  exact ⟨by unfold answer fresh; rw [(resolve_as_fresh real rfl _ _ q hn hq).1], hn⟩
+
+def e2 : List (Path × Path) := [("a", "a/nsp"), ("b", "b/nsp")]
+/-- first look while only portion `a/nsp` exists (for a module that is not there: the walk passes all
+candidates), then portion `b/nsp` with module `late` is created -/
+def lateHist : List Op :=
+  [.mkdir "a", .mkdir "b", .mkdir "a/nsp", .addMod "a/nsp" "early", .query { entries := e2, m := "late" },
+   .mkdir "b/nsp", .addMod "b/nsp" "late"]
+
+/-- the hypotheses are satisfiable, and the theorem is not vacuous: the later portion's module is found -/
+example : AllEntriesExist real {} lateHist ∧ EntriesExist (run real {} lateHist).fs { entries := e2, m := "late" }
+    ∧ answer real (run real {} lateHist) { entries := e2, m := "late" } = some "b/nsp" := by
+  refine ⟨?_, ?_, by decide⟩
+  · simp [lateHist, AllEntriesExist, OpOk, EntriesExist, step, e2, Fs.isdir]
+  · simp [lateHist, EntriesExist, run, step, e2, Fs.isdir]
+
+/-- **unfiltered-candidates witness** (the reason for `ns_candidates_exist`): when `py__path__` hands over
+`<entry>/<pkg>` for every sys.path entry, existing or not, the first look gives `b/nsp` a negative cache
+entry; the portion created afterwards is missed by every later Script of the process although all
+sys.path entries existed all the time (`AllEntriesExist` holds) - a fresh process, and a new process,
+find it -/
+theorem stale_if_candidates_unfiltered :
+    let c : Cfg := { filterIsdir := false }
+    let q : Query := { entries := e2, m := "late" }
+    answer c (run c {} lateHist) q = none
+    ∧ fresh c (run c {} lateHist) q = some "b/nsp"
+    ∧ (run c {} lateHist).fd.neg = ["b/nsp"]
+    ∧ answer c (run c {} (lateHist ++ [.newProcess])) q = some "b/nsp"
+    ∧ answer real (run real {} lateHist) q = some "b/nsp" := by decide
+
+/-- **missing-sys-path-entry witness** (reproduced on the unchanged code: known finding
+`C09-sys-path-entry-created-later`): without the hypothesis on the ENTRIES the full statement is false -
+`get_module_info(sys_path=...)` walks the sys path itself unfiltered; an entry that does not exist at the
+first look (`Project(added_sys_path=[...])` naming a directory that is created later) is never searched
+again in that process -/
+theorem stale_if_sys_path_entry_created_later :
+    let q : Query := { entries := e2, m := "late" }
+    let h : List Op := [.mkdir "a", .query q, .mkdir "b", .mkdir "b/nsp", .addMod "b/nsp" "late"]
+    answer real (run real {} h) q = none ∧ fresh real (run real {} h) q = some "b/nsp" := by decide
+
+end JediModel.Props.C09.Ns
